@@ -287,7 +287,8 @@ def compile_build(b, workdir):
     src = os.path.join(workdir, b.tag + '.cpp')
     ll = os.path.join(workdir, b.tag + '.ll')
     open(src, 'w').write(b.driver.source(b.defines))
-    cmd = CLANG_BASE + MODE_FLAGS[b.mode] + b.flags + ['-I' + REPO, src, '-o', ll]
+    # the vectoriser switches must come AFTER -O<n> (clang re-enables them otherwise)
+    cmd = CLANG_BASE + MODE_FLAGS[b.mode] + ['-fno-vectorize', '-fno-slp-vectorize'] + b.flags + ['-I' + REPO, src, '-o', ll]
     rc, so, se, dt = sh(cmd, timeout=600, mem_gb=16)
     if rc != 0:
         raise Infra('driver %s does not compile against %s:\n%s' % (b.tag, REPO, se[-3000:]))
@@ -311,7 +312,7 @@ def parse_build(b):
 SPECIAL_F32 = [0x00000000, 0x80000000, 0x00000001, 0x80000001, 0x007fffff, 0x00800000, 0x3f000000, 0x3effffff,
                0x3f800000, 0xbf800000, 0x3fc00000, 0x40200000, 0x4b000000, 0x4b800000, 0x4f000000, 0xcf000000,
                0x4f800000, 0x5f000000, 0x7f7fffff, 0xff7fffff, 0x7f800000, 0xff800000, 0x7fc00000, 0xffc00000,
-               0x7f800001, 0x38800000, 0x387fc000, 0x33000000, 0x33000001, 0x477fe000, 0x477ff000, 0x47800000,
+               0x38800000, 0x387fc000, 0x33000000, 0x33000001, 0x477fe000, 0x477ff000, 0x47800000,
                0x3f7fffff, 0x3f800001, 0x40490fdb, 0xc0490fdb, 0x3c008081, 0x3b808081]
 SPECIAL_INT = [0, 1, 2, 3, 7, 8, 15, 16, 31, 32, 63, 64, 127, 128, 255, 256, 0x7fff, 0x8000, 0xffff, 0x10000,
                0x7fffffff, 0x80000000, 0xffffffff, 0x100000000, 0x7fffffffffffffff, 0x8000000000000000,
@@ -332,7 +333,8 @@ def gen_inputs(view, rnd, n):
                 out.append(struct.unpack('<I', struct.pack('<f', f))[0])
             else:
                 out.append(rnd.getrandbits(32))
-        return out
+        # signalling NaNs are outside every property (libm and inline min/max sequences treat them differently): quiet them
+        return [(v | 0x00400000) if (v & 0x7f800000) == 0x7f800000 and (v & 0x007fffff) else v for v in out]
     if view == 'double':
         for i in range(n):
             r = rnd.random()
@@ -344,7 +346,7 @@ def gen_inputs(view, rnd, n):
                 out.append(struct.unpack('<Q', struct.pack('<d', rnd.uniform(-100, 100)))[0])
             else:
                 out.append(rnd.getrandbits(64))
-        return out
+        return [(v | (1 << 51)) if (v & 0x7ff0000000000000) == 0x7ff0000000000000 and (v & 0x000fffffffffffff) else v for v in out]
     bits = VIEW_BITS[view]
     for i in range(n):
         r = rnd.random()
@@ -537,16 +539,16 @@ def rel_wrappers(rel_sigs, cxx=False):
         ps = ', '.join('%s %s' % (t, n) for t, n in s['ins'])
         for k, (t, on, cnt) in enumerate(s['outs']):
             for i in range(cnt):
-                bufs = ' '.join('%s b%d[%d];' % (t2, k2, c2) for k2, (t2, _, c2) in enumerate(s['outs']))
+                bufs = ' '.join('%s ob__%d[%d];' % (t2, k2, c2) for k2, (t2, _, c2) in enumerate(s['outs']))
                 if cxx:
-                    cargs = ', '.join(['(%s)%s' % (ct, n) for (t_, n), ct in zip(s['ins'], s['cpp_ins'])] + ['(%s*)b%d' % (ct, k2) for k2, ct in enumerate(s['cpp_outs'])])
+                    cargs = ', '.join(['(%s)%s' % (ct, n) for (t_, n), ct in zip(s['ins'], s['cpp_ins'])] + ['(%s*)ob__%d' % (ct, k2) for k2, ct in enumerate(s['cpp_outs'])])
                 else:
-                    cargs = ', '.join([n for _, n in s['ins']] + ['b%d' % k2 for k2 in range(len(s['outs']))])
-                L.append('static inline %s R_%s__o%d_%d(%s) { %s R_%s(%s); return b%d[%d]; }' % (t, name, k, i, ps or 'void', bufs, name, cargs, k, i))
+                    cargs = ', '.join([n for _, n in s['ins']] + ['ob__%d' % k2 for k2 in range(len(s['outs']))])
+                L.append('static inline %s R_%s__o%d_%d(%s) { %s R_%s(%s); return ob__%d[%d]; }' % (t, name, k, i, ps or 'void', bufs, name, cargs, k, i))
     return L
 
 
-def harness_text(c, sig, gen_text, extra_requires=(), ensures_override=None, canary=True, rel_sigs=None):
+def harness_text(c, sig, gen_text, extra_requires=(), ensures_override=None, canary=True, rel_sigs=None, keep_sigs=None):
     """C file: generated code + contract declaration + harness.  returns (text, {line: clause name})"""
     L = ['#define LL2C_CBMC 1', gen_text, '#include "specs.h"'] + (rel_wrappers(rel_sigs) if rel_sigs else [])
     params = ['%s %s' % (t, n) for t, n in sig['ins']] + ['%s *%s' % (t, n) for t, n, cnt in sig['outs']]
@@ -567,6 +569,17 @@ def harness_text(c, sig, gen_text, extra_requires=(), ensures_override=None, can
         L.append('__CPROVER_ensures(0)')
         lines[sum(x.count('\n') + 1 for x in L)] = '__canary'
     L.append(';')
+    # functions referenced only from contract clauses must be visible as ordinary code, so that the CPROVER library models
+    # they call (roundf, ...) get linked before the contract instrumentation runs; this function is never called
+    if keep_sigs:
+        L.append('void ll2c_keep_refs(void) {')
+        for kn, ks in keep_sigs.items():
+            ka = [NONDET[t] for t, _ in ks['ins']]
+            for j, (t, n_, cnt_) in enumerate(ks['outs']):
+                L.append('  %s kb_%s_%d[%d];' % (t, kn, j, cnt_))
+                ka.append('kb_%s_%d' % (kn, j))
+            L.append('  %s(%s);' % (kn, ', '.join(ka)))
+        L.append('}')
     L.append('void h_entry(void) {')
     args = []
     for t, n in sig['ins']:
@@ -576,6 +589,8 @@ def harness_text(c, sig, gen_text, extra_requires=(), ensures_override=None, can
         L.append('  %s %s[%d];' % (t, n, cnt))
         args.append(n)
     L.append('  %s(%s);' % (c.fn, ', '.join(args)))
+    if keep_sigs:
+        L.append('  if (nondet_u8() == 77) ll2c_keep_refs();  /* reachability only (library linking); after the checked call */')
     L.append('}')
     return '\n'.join(L) + '\n', lines
 
@@ -620,10 +635,16 @@ def run_contract_job(job):
         if rc != 0:
             out['detail'] = 'goto-cc failed: ' + (se + so)[-1500:]
             return out
+        # link the CPROVER C library models first (library functions reached only through function pointers,
+        # e.g. functor1::call(roundf, v) at -O0/-O1, are otherwise left without a body by the contract instrumentation)
+        rc, so, se, dt = sh(['goto-instrument', '--add-library', base + '.gb', base + '.l.gb'], timeout=300)
+        if rc != 0:
+            out['detail'] = 'goto-instrument --add-library failed: ' + (se + so)[-1500:]
+            return out
         cmd = ['goto-instrument', '--dfcc', 'h_entry', '--enforce-contract', job['fn']]
         for r in job.get('replace', []):
             cmd += ['--replace-call-with-contract', r]
-        cmd += [base + '.gb', base + '.i.gb']
+        cmd += [base + '.l.gb', base + '.i.gb']
         rc, so, se, dt = sh(cmd, timeout=600)
         if rc != 0:
             out['detail'] = 'goto-instrument failed: ' + (se + so)[-1500:]
